@@ -64,6 +64,7 @@ let handle mode op args =
       out_bytes (dump_vars_with d (prelude mode) (bytes_of_hex q) (bytes_of_hex vs) (List.map bytes_of_hex srcs))
   | "argmap", m :: q :: vs :: srcs ->
       out_bytes (dump_argmap_with d (prelude mode) (bytes_of_hex m) (bytes_of_hex q) (bytes_of_hex vs) (List.map bytes_of_hex srcs))
+  | "path", [a] -> out_bytes (dump_path_roundtrip (bytes_of_hex a))
   | _ -> "BADOP"
 
 let () =
